@@ -40,6 +40,7 @@ def run(ck, fb):
     r18b(ck, fb)
     r18c(ck, fb)
     r18f(ck, fb)
+    r18g(ck, fb)
     r18d(ck, fb)
 
 
@@ -405,3 +406,34 @@ def r18f(ck, fb):
                    '%s builds a listing from a query that carries the caller\'s namespace privilege but never consults it (and is not called under a '
                    'per-namespace check): with the namespace omitted the handler-level check lets the request through and the listing returns '
                    'rows of every namespace' % n, 'privilege consulted')
+
+
+def r18g(ck, fb):
+    ck.rule('R18g', 'the privilege travels with a query that is forwarded to another node: every struct that carries a namespace_privilege field and '
+                    'is serialised for the cluster route (NamingRouteRequest::QueryServiceSubscriberPage(ServiceQueryParam) ...) writes that field - '
+                    'the derived Serialize body contains serialize_field("namespace_privilege"). A skipped field is rebuilt with the default on the '
+                    'receiving node, and the default privilege permits every namespace')
+    n = 0
+    for name, b in fb.bodies.items():
+        m = re.search(r'_serde::Serialize for (rnacos::[\w:]+)>::serialize$', name)
+        if not m:
+            continue
+        ty = m.group(1)
+        adt = fb.adts.get(ty)
+        if not adt or adt.get('enum'):
+            continue
+        fields = [f[0] for f in adt['variants'][0]['fields']]
+        if 'namespace_privilege' not in fields:
+            continue
+        n += 1
+        ck.analysed(b)
+        strs = set()
+        for s0 in b.calls(r'serialize_field$'):
+            for a in s0.args:
+                d = cfg.strip_calls(b, cfg.describe_operand(b, a))
+                if d['k'] == 'const' and 's' in d['c']:
+                    strs.add(d['c']['s'])
+        ck.require(any('namespace' in x.lower() and 'privilege' in x.lower() for x in strs), 'R18g', 'serialize:%s' % ty, b.where(),
+                   '%s is serialisable but its namespace_privilege field is not written (serde skip): forwarded to another node the query is evaluated '
+                   'with the default privilege, which permits every namespace' % ty, 'field written')
+    ck.floor('R18g', 'serialisable structs that carry namespace_privilege', n, 1)
